@@ -39,6 +39,7 @@ func main() {
 
 func realMain() int {
 	debug.SetGCPercent(400)
+	debug.SetMemoryLimit(12 << 30) // the collector works harder instead of letting the heap (400% headroom) outgrow the machine
 	if len(os.Args) < 2 {
 		usage()
 	}
